@@ -38,10 +38,13 @@ class Ctx:
         self.quick = tier == "quick"
         self.work = tlc.workdir(pid)
         self.rng = random.Random(seed)
+        self.mutant = None
 
     # ---------------- stage A: design-level model checking ----------------
     def mc(self, module, cfg=None, *, expect_violation=None, workers=NCPU, env=None, timeout=900,
            simulate=None, depth=None, coverage=False, note=None):
+        if getattr(self, "skip_mc", False):
+            return None
         """Run TLC on a design-level model.  expect_violation: name of an invariant that is expected
         to fail (a design-level counterexample of a KNOWN deviation, e.g. MC with Dev switched on)."""
         r = tlc.must_ok(tlc.run(module, cfg, workers=workers, env=env, timeout=timeout, simulate=simulate,
@@ -105,6 +108,8 @@ class Ctx:
                   "TORCHPHYSICS_VERIF": "1", "OMP_NUM_THREADS": "1", "MKL_NUM_THREADS": "1",
                   "PYTHONWARNINGS": "ignore", "VERIF_SEED": str(self.seed)})
         e.update({k: str(v) for k, v in (env or {}).items()})
+        if self.mutant:
+            e["VERIF_MUTANT"] = self.mutant
         n = len(self.mc_runs)
         sf = os.path.join(self.work, "scen-%s-%d.json" % (driver, n))
         tf = os.path.join(self.work, "trace-%s-%d.json" % (driver, n))
@@ -248,6 +253,27 @@ class Ctx:
         return 1 if viol else 0
 
 
+def selftest(pid, mod, tier, seed):
+    """Binding demonstration: every in-process mutant listed for the property must be rejected by TLC."""
+    from . import mutants
+    res = {}
+    for name in mutants.BY_PROPERTY.get(pid, []):
+        ctx = Ctx(pid, tier, seed)
+        ctx.mutant = name
+        ctx.skip_mc = True
+        mod.run(ctx)
+        br = {}
+        for r in ctx.rejections:
+            if not r.get("known"):
+                br[r["clause"].split("@")[0]] = br.get(r["clause"].split("@")[0], 0) + 1
+        res[name] = br
+        shutil.rmtree(ctx.work, ignore_errors=True)
+        print("selftest %s mutant %-28s %s %s" % (pid, name, "CAUGHT" if br else "MISSED", json.dumps(br, sort_keys=True)[:200]))
+    with open(os.path.join(EVID, "selftest_%s.json" % pid), "w") as f:
+        json.dump(res, f, indent=1)
+    return 0 if all(res.values()) else 1
+
+
 def main(argv):
     import argparse, importlib
     ap = argparse.ArgumentParser()
@@ -272,7 +298,7 @@ def main(argv):
     ctx = Ctx(pid, a.tier, seed, replay=a.replay)
     try:
         if a.selftest:
-            rc = mod.selftest(ctx)
+            rc = selftest(pid, mod, a.tier, seed)
         else:
             mod.run(ctx)
             rc = ctx.finish()
